@@ -191,7 +191,7 @@ def run_sequence(rng, n_ops):
     for step in range(n_ops):
         op = str(rng.choice(["set", "set", "update", "commit", "commit", "get_current", "get_current_all", "get_history_idx",
                              "get_history_flat", "get_history_all", "get_last", "to_dict", "results", "roundtrip_dict",
-                             "update_from_dict", "save_load", "logw", "commit_strict", "unset"]))
+                             "update_from_dict", "save_load", "logw", "commit_strict", "unset", "partial_dict"]))
         try:
             if ragged and op in ("set", "update") and rng.random() < 0.5:
                 n = int(rng.integers(1, 6))
@@ -353,6 +353,24 @@ def run_sequence(rng, n_ops):
                 if msg:
                     bad.append(("roundtrip", "from_dict(to_dict()) : " + msg))
                 note(op)
+            elif op == "partial_dict":
+                # a manager (re)built from a dictionary that carries only part of the recorded quantities (documented usage):
+                # the quantities it does not mention start empty and independent of each other
+                keep = [k for k in RefState.HIST if rng.random() < 0.5]
+                dd = {"_current": {k: RefState.cp(v) for k, v in ref.cur.items() if rng.random() < 0.7},
+                      "_history": {k: [RefState.cp(a) for a in ref.hist[k]] for k in keep}, "n_dim": d}
+                if rng.random() < 0.5:
+                    sm = StateManager.from_dict(dd)
+                    for k in RefState.CUR:
+                        if k not in dd["_current"]:
+                            ref.cur[k] = None
+                    for k in RefState.HIST:
+                        if k not in keep:
+                            ref.hist[k] = []
+                    note("partial_dict:from_dict")
+                else:
+                    sm.update_from_dict(dd)          # merges: quantities not mentioned keep what they had
+                    note("partial_dict:update_from_dict")
             elif op == "update_from_dict":
                 # donate a private deep copy of the reference content
                 dd = {"_current": {k: RefState.cp(v) for k, v in ref.cur.items()},
